@@ -31,7 +31,7 @@ ASSUMPTIONS = [
 ]
 TOLERANCES = {"matrix-entries": "1e-9 * product of factor norms", "inverse": "1e-9 * cond(M)", "point": "1e-9 * scale"}
 MANDATORY_LABELS = {
-    "quick": ["fn:matrix/6", "fn:translate/1", "fn:translate/2", "fn:scale/1", "fn:scale/2", "fn:rotate/1", "fn:rotate/3", "fn:skew/1", "fn:skew/2", "fn:skewx/1", "fn:skewy/1", "fn:translatex/1", "fn:translatey/1", "fn:scalex/1", "fn:scaley/1", "unit:grad", "unit:rad", "unit:turn", "unit:deg", "unit-case:mixed"],
+    "quick": ["fn:matrix/6", "fn:translate/1", "fn:translate/2", "fn:scale/1", "fn:scale/2", "fn:rotate/1", "fn:rotate/3", "fn:skew/1", "fn:skew/2", "fn:skewx/1", "fn:skewy/1", "fn:translatex/1", "fn:translatey/1", "fn:scalex/1", "fn:scaley/1", "unit:grad", "unit:rad", "unit:turn", "unit:deg", "unit-case:mixed", "percent:wh", "percent:rel", "percent-route:ctor", "percent-route:render"],
 }
 MANDATORY_LABELS["thorough"] = MANDATORY_LABELS["quick"] + ["unit:in", "unit:pt", "unit:pc", "unit:mm", "unit:cm"]
 
@@ -174,11 +174,103 @@ def decode_algebra(d):
     return {"A": A, "B": B, "p": gen.point(d, gen.small_coord), "ops": ops}
 
 
+def decode_percent(d):
+    """a percentage translation between optional linear functions, rendered against width/height or relative_length"""
+    def linear():
+        k = d.choice(["scale", "scale", "rotate", "skewX", "matrix"])
+        if k == "scale":
+            return ["scale", [num_text(d, d.choice([2.0, 0.5, -1.0, 3.0])), num_text(d, d.choice([1.0, 2.0, 0.25, -2.0]))]]
+        if k == "rotate":
+            return ["rotate", [num_text(d, d.choice([30.0, 90.0, -45.0, 10.0]))]]
+        if k == "skewX":
+            return ["skewX", [num_text(d, d.choice([20.0, -30.0, 45.0]))]]
+        m = gen.matrix(d, translate=False)["m"]
+        return ["matrix", [num_text(d, v) for v in m[:4]] + ["0", "0"]]
+
+    pure = d.chance(3, 4)  # mostly percentages only: a percentage next to a plain offset is the known finding
+
+    def arg():
+        v = d.choice([10.0, 20.0, 50.0, -25.0, 12.5, 100.0, 5.0]) if d.bool() else gen.r6(d.uniform(-150.0, 150.0))
+        return num_text(d, v) + ("%" if pure else d.choice(["%", "%", "%", "", "px"]))
+
+    funcs = [linear() for _ in range(d.int(0, 2))]
+    name = d.choice(["translate", "translate", "translate", "translateX", "translateY"])
+    funcs.append([name, [arg(), arg()] if (name == "translate" and d.chance(3, 4)) else [arg()]])
+    if d.chance(1, 3):
+        funcs.append([d.choice(["translate", "translateX", "translateY"]), [arg()]])
+    funcs += [linear() for _ in range(d.int(0, 1))]
+    text = " ".join("%s(%s)" % (n_, d.choice([", ", " ", ","]).join(a_)) for n_, a_ in funcs)
+    if d.bool():
+        mode = {"mode": "wh", "w": d.choice([200.0, 50.0, 120.0, 640.0]), "h": d.choice([100.0, 300.0, 120.0, 480.0])}
+    else:
+        mode = {"mode": "rel", "r": d.choice([200.0, 50.0, 1.0, 333.0])}
+    return {"funcs": funcs, "text": text, "render": mode, "route": d.choice(["ctor", "render"]), "p": gen.point(d, gen.small_coord)}
+
+
+def check_percent(case):
+    se = lib.L()
+    o = core.Obs()
+    funcs, text, mode = case["funcs"], case["text"], case["render"]
+    W = mode["w"] if mode["mode"] == "wh" else mode["r"]
+    H = mode["h"] if mode["mode"] == "wh" else mode["r"]
+    o.label("percent:%s" % mode["mode"], "percent-route:%s" % case["route"])
+
+    def length(tok, ref):
+        t = tok.lower()
+        if t.endswith("%"):
+            return float(t[:-1]) * ref / 100.0
+        return float(t[:-2]) if t.endswith("px") else float(t)
+
+    total = gen.IDENTITY
+    norm = 1.0
+    mixed = False  # a percentage translation right of a function that mixes the axes
+    left_mixes = False
+    for name, args in funcs:
+        low = name.lower()
+        if low == "translate":
+            e = (1.0, 0.0, 0.0, 1.0, length(args[0], W), length(args[1], H) if len(args) > 1 else 0.0)
+        elif low == "translatex":
+            e = (1.0, 0.0, 0.0, 1.0, length(args[0], W), 0.0)
+        elif low == "translatey":
+            e = (1.0, 0.0, 0.0, 1.0, 0.0, length(args[0], H))
+        else:
+            e = elementary(name, args, 96)
+        if low.startswith("translate") and any(a.endswith("%") for a in args) and left_mixes:
+            mixed = True
+        if abs(e[1]) > 1e-12 or abs(e[2]) > 1e-12:
+            left_mixes = True
+        total = gen.mat_mul(e, total)
+        norm *= max(1.0, gen.mat_norm(e) + abs(e[4]) + abs(e[5]))
+    kw = {"width": W, "height": H} if mode["mode"] == "wh" else {"relative_length": mode["r"]}
+    try:
+        if case["route"] == "ctor":
+            got_m = se.Matrix(text, **kw)
+        else:
+            got_m = se.Matrix(text)
+            got_m.render(**kw)
+        got = mtuple(got_m)
+    except Exception as e:
+        if core.library_frame(e.__traceback__) is None:
+            raise
+        toks = [a for n_, a_ in funcs if n_.lower().startswith("translate") for a in a_]
+        plain = [a for a in toks if not a.endswith("%") and float(a[:-2] if a.lower().endswith("px") else a) != 0.0]
+        if isinstance(e, ValueError) and core.library_frame(e.__traceback__) in ("__iadd__", "value") and any(a.endswith("%") for a in toks) and plain:
+            return o.known("KF-TRANSFORM-PERCENT-SYMBOLIC", "Matrix(%r) rendered with %r raised ValueError: a percentage and a plain translation component were combined in one symbolic Length" % (text, kw))
+        return o.violation("percent:raises:%s" % type(e).__name__, "Matrix(%r) rendered with %r raised %s: %s" % (text, kw, type(e).__name__, str(e)[:80]))
+    if not mclose(got, total, 1e-9 * norm):
+        if mixed and W != H:
+            return o.known("KF-TRANSFORM-PERCENT-SYMBOLIC", "Matrix(%r) rendered with %r = %r, the product of its functions is %r: a percentage offset right of a rotation/skew mixes x- and y-percentages in one symbolic Length, which is then resolved against one axis" % (text, kw, got, total))
+        return o.violation("percent:%s" % mode["mode"], "Matrix(%r) rendered with %r (%s) = %r, the product of its functions is %r" % (text, kw, case["route"], got, total))
+    o.nontrivial = any(a.endswith("%") for n_, a_ in funcs for a in a_)
+    return o.ok()
+
+
 def parts(tier):
     n = 15000 if tier == "quick" else 40000
     return [
         core.Part("strings", "sampled", lambda: gen.cases(decode_string, 384), budget=n),
         core.Part("algebra", "sampled", lambda: gen.cases(decode_algebra, 256), budget=n, check=check_algebra),
+        core.Part("percent", "sampled", lambda: gen.cases(decode_percent, 256), budget=n // 5, check=check_percent),
     ]
 
 
